@@ -9,7 +9,7 @@
 #
 import json
 from collections.abc import Iterator, Iterable
-from decimal import Decimal, ROUND_UP
+from decimal import Decimal
 from types import ModuleType
 from typing import cast, Any, Optional, Union
 from xml.etree import ElementTree
@@ -381,7 +381,8 @@ def serialize_to_json(elements: Iterable[Any],
                 for k, v in obj.items():
                     if isinstance(k, QName):
                         k = str(k)
-                    map_items.append((k, v))
+                    # An empty sequence is serialized as the JSON null value
+                    map_items.append((k, v if v or not isinstance(v, list) else None))
 
                     if k not in map_keys:
                         map_keys.add(k)
@@ -394,7 +395,7 @@ def serialize_to_json(elements: Iterable[Any],
             elif isinstance(obj, (AbstractBinary, AbstractDateTime, AnyURI, UntypedAtomic)):
                 return str(obj)
             elif isinstance(obj, Decimal):
-                return float(Decimal(obj).quantize(Decimal("0.01"), ROUND_UP))
+                return float(obj)
             elif isinstance(obj, list):
                 return [v for v in obj]
             else:
